@@ -181,7 +181,7 @@ def formula_checks(run, tier, rng):
     for t in range(n_cases):
         nr = np.random.RandomState(rng.randrange(2 ** 31))
         d = rng.choice([1, 2, 3])
-        K = rng.choice([1, 2])
+        K = rng.choice([1, 2, 3])
         means = 0.5 + 0.05 * nr.randn(K, d)
         covs = []
         for _ in range(K):
@@ -191,6 +191,8 @@ def formula_checks(run, tier, rng):
         nw = 3
         u = np.clip(0.5 + 0.03 * nr.randn(nw, d), 0.2, 0.8)
         asg = [rng.randrange(K) for _ in range(nw)]
+        if K == 3:
+            asg = [rng.choice([0, 2]) for _ in range(nw)] if t % 2 else [rng.choice([1, 2]) for _ in range(nw)]   # a lower-indexed mode holds no walker
         like = lambda X: (np.array([-0.5 * float(np.sum((v - 0.5) ** 2)) / 0.01 for v in X]), None)
         logl, _ = like(u)
         beta = rng.choice([0.3, 1.0])
@@ -219,7 +221,7 @@ def formula_checks(run, tier, rng):
             np.random.gamma, np.random.randn = orig_gamma, orig_randn
         run.case(key=("propose", t), nontrivial=True)
         c = asg[k]
-        mu, nu, sigma = means[c], dof[c], float(r.sigmas[c])
+        mu, nu, sigma = means[c], dof[c], float(r.sigmas[min(c, len(r.sigmas) - 1)])
         diff = u[k] - mu
         P = np.linalg.inv(covs[c])
         delta = float(diff @ P @ diff)
@@ -351,7 +353,12 @@ def ensemble(kind, target, n_walk, seed, periodic=None, reflective=None, n_steps
     out = parallel_mcmc(u=u0, x=u0.copy(), logl=logl, blobs=None, assignments=np.zeros(n_walk, dtype=int), beta=1.0, mode_stats=ms,
                         log_likelihood=like, prior_transform=lambda v: v, progress_bar=None, n_steps=n_steps, n_max=n_steps + 1,
                         sample=kind, periodic=periodic, reflective=reflective, verbose=False)
+    LEFT_CUBE.append((kind, None if periodic is None else [int(v) for v in periodic], None if reflective is None else [int(v) for v in reflective],
+                      int(np.sum(np.any((out[0] < 0) | (out[0] > 1), axis=1))), n_walk, seed))
     return u0, out[0]
+
+
+LEFT_CUBE = []    # (kernel, periodic, reflective, walkers outside [0,1]^d after mutation, walkers, seed) of every ensemble, in order
 
 
 def z_of(stat_vals, mean, sd):
@@ -472,6 +479,24 @@ def stationarity(run, tier):
                      f"of rejecting them tilts the invariant law by P(step lands inside))", kernel=kind, n_walkers=n_walk, seed=404)
 
 
+def kernel_sequence_probe(run):
+    """kernels with different boundary designations one after the other in one process, in a dimension nothing else here uses: what one
+    runner was told about its coordinates must not reach the next one"""
+    flat = dict(draw=lambda nr, n: nr.rand(n, 5), logl=lambda v: 0.0, mean=[0.5] * 5, cov=(np.eye(5) * 0.09).tolist(), dof=5.0)
+    for kind, kw in (("rwm", dict(periodic=np.array([0]))), ("tpcn", {}), ("rwm", dict(periodic=np.array([1]))), ("rwm", {})):
+        ensemble(kind, flat, 400, 707, n_steps=3, **kw)
+        run.case(key=("kernel-sequence", kind, str(sorted(kw))), nontrivial=True)
+
+
+def cube_check(run):
+    """whatever kernels ran before in this process with other boundary designations: after a mutation every walker is inside the unit cube"""
+    for i, (kind, per, ref, n_out, n_walk, seed) in enumerate(LEFT_CUBE):
+        if n_out:
+            run.fail("walker-left-the-cube", f"{kind} (periodic={per}, reflective={ref}): {n_out} of {n_walk} walkers are outside [0,1]^d after the mutation; "
+                     f"kernels run before it in the same process: {[(k_, p_, r_) for (k_, p_, r_, *_rest) in LEFT_CUBE[:i]][-4:]}", kernel=kind, periodic=per, reflective=ref, seed=seed)
+            return
+
+
 def main(tier, seed):
     run = Run(PID, tier, seed)
     run.rule = ("(i) tpCN proposals and acceptance corrections with the gamma and normal draws injected, over K in {1,2}, d in "
@@ -501,7 +526,9 @@ def main(tier, seed):
     try:
         formula_checks(run, tier, rng)
         accept_block(run, tier, rng)
+        kernel_sequence_probe(run)
         stationarity(run, tier)
+        cube_check(run)
     except Exception:
         import traceback
         run.broken.append(("harness-exception", traceback.format_exc()[-1500:]))
